@@ -165,7 +165,7 @@ NAMES = ["a", "b", "c", "d", "e"]
 
 def gen_spec(rng, *, backend="pandas", kind=None, allow_flavors=True,
              min_cols=1, max_cols=4, allow_index=True, allow_regex=True,
-             allow_custom=True, allow_dtz=True, p_drop=0.1):
+             allow_custom=True, allow_dtz=True, p_drop=0.1, allow_groupby=True):
     """Random schema spec.  kind in frame | series | column | model."""
     if kind is None:
         if backend == "polars":
@@ -248,7 +248,8 @@ def gen_spec(rng, *, backend="pandas", kind=None, allow_flavors=True,
         if backend == "pandas" and allow_custom and rng.random() < 0.08:
             spec["parsers"] = ["parse_identity"]
         # groupby check on a column (pandas)
-        if backend == "pandas" and allow_custom and rng.random() < 0.1:
+        if backend == "pandas" and allow_custom and allow_groupby \
+                and rng.random() < 0.1:
             gcols = [c for c in cols if not c["regex"] and c["required"]
                      and c["dtype"] in ("str", "int", "const") and not c["nullable"]]
             tcols = [c for c in cols if not c["regex"] and c["dtype"] in ("int", "float")]
